@@ -21,6 +21,8 @@ TRUSTED = [
     "PRQL_VERSION_OVERRIDE does not change while compilations run",
     "real hash seeds and OS schedules are SAMPLED (fresh processes, repeated in-process compiles: every HashMap gets a new RandomState key; 16 threads released by a barrier)",
     "span.source_id is an index into the SourceTree it was built from: multi-file results are compared after renaming source ids to paths",
+    "hooks namegen-sites (44c332e) and pq-names (d5c1b7e), read through the process-global debug log (harness c11_names): under threads the log drops lines of other threads while a call holds a LogSuppressLock, so the thread comparison is a sub-multiset test",
+    "entry closures handed to debug::log_entry do not panic and do not log (inventory rows `..:log_entry(closure)..` list what each does; MessageLogger formats the caller's arguments under the lock)",
     "correspondence harness (harness/src/c11.rs) and python comparison",
 ]
 
